@@ -3,6 +3,7 @@ package main
 import (
 	"bytes"
 	"crypto/tls"
+	"encoding/base64"
 	"encoding/binary"
 	"fmt"
 	"io"
@@ -130,9 +131,14 @@ func userConn(pl *plan) {
 	var early []byte // tcpmux without passthrough, early variant: payload written together with the CONNECT request
 	switch px.cfg.Kind {
 	case "https":
-		tc := tls.Client(raw, &tls.Config{ServerName: px.domain, InsecureSkipVerify: true, NextProtos: alpnList(cfg.ALPN)})
+		tc := tls.Client(raw, &tls.Config{ServerName: px.host(), InsecureSkipVerify: true, NextProtos: alpnList(cfg.ALPN)})
 		_ = raw.SetDeadline(time.Now().Add(stallGrace))
 		if err := tc.Handshake(); err != nil {
+			if pl.mayRefuse {
+				cs.run.Count("removed_route_refused", 1)
+				pl.failed.Store(true)
+				return
+			}
 			cs.fail(pl, "https-tls-handshake-failed", "proxy %s: TLS handshake with the backend through the https proxy failed: %v", px.name, err)
 			return
 		}
@@ -141,7 +147,7 @@ func userConn(pl *plan) {
 		conn = tc
 		connMu.Unlock()
 	case "httpsraw":
-		hello, err := recordedClientHello(px.domain, cfg.ALPN)
+		hello, err := recordedClientHello(px.host(), cfg.ALPN)
 		if err != nil {
 			cs.run.Inconclusive("client hello generation failed")
 			pl.failed.Store(true)
@@ -153,7 +159,11 @@ func userConn(pl *plan) {
 			return
 		}
 	case "tcpmux":
-		req := []byte(fmt.Sprintf("CONNECT %s:443 HTTP/1.1\r\nHost: %s:443\r\nUser-Agent: verif-c01\r\n\r\n", px.domain, px.domain))
+		auth := ""
+		if px.routeUser != "" {
+			auth = "Proxy-Authorization: Basic " + base64.StdEncoding.EncodeToString([]byte(px.routeUser+":x")) + "\r\n"
+		}
+		req := []byte(fmt.Sprintf("CONNECT %s:443 HTTP/1.1\r\nHost: %s:443\r\n%sUser-Agent: verif-c01\r\n\r\n", px.host(), px.host(), auth))
 		if cs.sv.passthrough {
 			pl.setUserSide(req, "", "")
 			if err := writeChunked(conn, req, cfg.PreChunk); err != nil {
@@ -187,6 +197,11 @@ func userConn(pl *plan) {
 				}
 				resp = append(resp, one[0])
 			}
+			if !bytes.HasPrefix(resp, []byte("HTTP/1.1 200")) && pl.mayRefuse {
+				cs.run.Count("removed_route_refused", 1)
+				pl.failed.Store(true)
+				return
+			}
 			if !bytes.HasPrefix(resp, []byte("HTTP/1.1 200")) {
 				cs.fail(pl, "tcpmux-connect-not-answered", "proxy %s: CONNECT answered with %q", px.name, resp)
 				return
@@ -215,7 +230,7 @@ func userConn(pl *plan) {
 			cs.fail(pl, "stream-altered-down", "proxy %s: greeting garbled: %x", px.name, g)
 			return
 		}
-		if id := unpadID(g[4:]); id != px.be.id {
+		if id := unpadID(g[4:]); !pl.acceptsBackend(id) {
 			cs.fail(pl, "cross-wired", "connection made to proxy %s (backend %s) was greeted by backend %s", px.name, px.be.id, id)
 			return
 		}
@@ -245,7 +260,10 @@ func userConn(pl *plan) {
 		if err != nil {
 			if tolerant {
 				want := makeIdent(px.be.id, pl.nonce)
-				if !bytes.Equal(id[:n], want[:n]) {
+				if pl.altPx != nil && n >= 28 && unpadID(id[4:28]) == pl.altPx.be.id {
+					want = makeIdent(pl.altPx.be.id, pl.nonce)
+				}
+				if !bytes.Equal(id[:n], want[:n]) && pl.altPx == nil {
 					cs.fail(pl, "stream-altered-down", "proxy %s: partial backend answer %x is not a prefix of what the backend wrote", px.name, id[:n])
 				}
 				return false
@@ -261,7 +279,7 @@ func userConn(pl *plan) {
 			cs.fail(pl, "stream-altered-down", "proxy %s: backend answer garbled or for another connection: %x", px.name, id)
 			return false
 		}
-		if got := unpadID(id[4:28]); got != px.be.id {
+		if got := unpadID(id[4:28]); !pl.acceptsBackend(got) {
 			cs.fail(pl, "cross-wired", "connection made to proxy %s (backend %s) was answered by backend %s", px.name, px.be.id, got)
 			return false
 		}
